@@ -31,7 +31,10 @@ type etree struct {
 	extras int  // annotation / marker errors added by Wrap, Wrapf, ParsePanic
 }
 
-type egen struct{ next int }
+type egen struct {
+	next    int
+	derived []error // non-nil layers peeled off aggregates
+}
 
 func (g *egen) leaf() etree {
 	g.next++
@@ -76,9 +79,61 @@ func (g *egen) tree(depth int) etree {
 	if depth <= 0 {
 		return g.leaf()
 	}
-	switch simrt.Choose(8) {
+	switch simrt.Choose(9) {
 	case 0, 1:
 		return g.leaf()
+	case 8:
+		// an operand obtained by peeling one layer off an aggregate
+		// (errors.Unwrap of a Stack hands out the rest of the stack as an
+		// ordinary non-nil error) and fed back into the combinators
+		p := g.tree(depth - 1)
+		st, ok := p.err.(*ers.Stack)
+		if !ok {
+			return p
+		}
+		d := errors.Unwrap(st)
+		if d == nil {
+			return p
+		}
+		sub := etree{desc: "Unwrap(" + p.desc + ")", extras: p.extras, notes: nil}
+		for _, l := range p.leaves {
+			if errors.Is(d, l) {
+				sub.leaves = append(sub.leaves, l)
+			}
+		}
+		for _, l := range p.inners {
+			if errors.Is(d, l) {
+				sub.inners = append(sub.inners, l)
+			}
+		}
+		if len(sub.leaves) == 0 {
+			return p // the layer holds annotations / markers only
+		}
+		g.derived = append(g.derived, d)
+		out := merge("", sub)
+		switch simrt.Choose(5) {
+		case 0:
+			out.desc = "Wrap(" + sub.desc + ")"
+			out.err = ers.Wrap(d, "annotation")
+			out.extras++
+		case 1:
+			out.desc = "Wrapf(" + sub.desc + ")"
+			out.err = ers.Wrapf(d, "annotation-%d", 2)
+			out.extras++
+		case 2:
+			out.desc = "Join(" + sub.desc + ")"
+			out.err = ers.Join(d)
+		case 3:
+			l := g.leaf()
+			out = merge("Join("+sub.desc+","+l.desc+")", sub, l)
+			out.err = ers.Join(d, l.err)
+		default:
+			out.desc = "Collector(" + sub.desc + ")"
+			ec := &erc.Collector{}
+			ec.Add(d)
+			out.err = ec.Resolve()
+		}
+		return out
 	case 2: // ers.Join of 1..4 parts
 		n := 1 + simrt.Choose(4)
 		parts := make([]etree, n)
@@ -266,6 +321,21 @@ func c12Trees(w *W) {
 	w.Config("flat=Join(%s) tree=%s", desc, t.desc)
 	w.State(fmt.Sprintf("depth=%d leaves=%d", depth, min(len(t.leaves), 6)))
 	judgeTree(w, t, "tree")
+	// helpers that decide "is this an error at all" must agree with != nil
+	for _, d := range append(append([]error{}, g.derived...), t.err) {
+		if d == nil {
+			continue
+		}
+		if ers.Ok(d) || !ers.IsError(d) {
+			w.Violate("nonnil-error-is-ok", "nonnil-error-is-ok", "ers.Ok(%v) = %v, ers.IsError = %v for a non-nil error holding %v", d, ers.Ok(d), ers.IsError(d), ers.Unwind(d))
+		}
+		if got := ers.Append(nil, nil, d, nil); len(got) != 1 || got[0] != d {
+			w.Violate("append-dropped", "append-dropped", "ers.Append(nil, nil, e, nil) = %v for the non-nil error %v", got, d)
+		}
+		if got := ers.RemoveOk([]error{nil, d}); len(got) != 1 || got[0] != d {
+			w.Violate("removeok-dropped", "removeok-dropped", "ers.RemoveOk([nil, e]) = %v for the non-nil error %v", got, d)
+		}
+	}
 }
 
 func c12Collector(w *W) {
